@@ -168,6 +168,9 @@ fn near_boundary(x: usize) -> bool {
 }
 
 pub fn eval_c16(case: &Case) -> Outcome {
+    if crate::zsthuge::is_huge_zst(case) {
+        return crate::zsthuge::eval_c16_huge(case);
+    }
     let h = crate::seq::run_seq(case);
     let verdict = c16_oracle(&h);
     let mut classes = vec![kind_class(case.kind)];
